@@ -1,5 +1,5 @@
 (* C31 — TaggedFileId round trip, bit-level, for every 63-bit id (no sampling). *)
-From ApolloVerif Require Import Base.Chars Mem.FileId Mem.FileIdProofs Mem.Pack.
+From ApolloVerif Require Import Base.Chars Mem.FileId Mem.BitsProofs Mem.Pack.
 From Coq Require Import ZifyBool ZifyN.
 
 Lemma ID_MASK_ones : fi_ID_MASK = N.ones 63. Proof. reflexivity. Qed.
